@@ -16,7 +16,7 @@ from .interp import shape, PathLimit, Unsupported
 from .typestate import (Typestate, select_summaries, STATES, val_str, materialize, FLOW, find_flows,
                         valuation_of)
 from .tables import ref, continue_from
-from .panics import inventory, reachable_from, d2_discharge, public_api
+from .panics import inventory, reachable_from, d2_discharge, public_api, foreign_discharge
 
 OPAQUE_EXTRA = {"try_parse_response", "try_parse_partial_response", "try_parse_request",
                 "AmendedRequest::<Body>::new_uri_from_location", "AmendedRequest::<Body>::headers_get_all",
@@ -346,9 +346,22 @@ def rule_inventory(ctx):
     if not ctx.floor(R, "api", len(roots), 40, "public Flow methods"):
         return
     reach = [b for b in reachable_from(prog, roots) if not b.is_derived]
-    sites = [s for s in inventory(prog, reach) if s.kind.split(":")[0] in ("panic", "unwrap", "expect")]
+    allsites = inventory(prog, reach)
+    sites = [s for s in allsites if s.kind.split(":")[0] in ("panic", "unwrap", "expect")]
     if not ctx.floor(R, "sites", len(sites), 30, "typestate-kind panic sites reachable from the Flow API"):
         return
+    # calls to foreign functions documented to panic (std / http / url): excluded by a constant argument or reviewed
+    nf = 0
+    for s in allsites:
+        if s.kind.startswith("foreign:"):
+            okf, whyf = foreign_discharge(prog, s)
+            nf += 1
+            if okf:
+                ctx.ok(R, "site:" + s.key, "documented panic of the foreign callee excluded: " + whyf, loc=s.loc)
+            else:
+                ctx.reviewed_or_violation(R, s.key, "call to %s, which is documented to panic, is reachable from the Flow API: %s" % (
+                    s.kind[8:], whyf), loc=s.loc)
+    ctx.extra_coverage["foreign_documented_panic_sites"] = nf
     panicking = set(sk for (_, _, sk) in ts["panics"])
     n_d1 = n_d2 = 0
     for s in sites:
